@@ -83,8 +83,11 @@ def templatise(stmts: List[tuple], ch: Choices, counter: List[int]) -> List[tupl
     out = []
     for s in stmts:
         if s[0] == "rot" and ch.flag(2, 3, "tmpl"):
-            nm = f"t{counter[0]}"
-            counter[0] += 1
+            if counter[0] > 0 and ch.flag(1, 3, "reuse"):
+                nm = f"t{ch.draw(counter[0], 'which')}"     # one template name used by several rotations
+            else:
+                nm = f"t{counter[0]}"
+                counter[0] += 1
             out.append(("rot", s[1], s[2], ("tmpl", nm), s[4]))
         elif s[0] in ("loop", "if", "foreach", "enumerate"):
             out.append(tuple(templatise(x, ch, counter) if isinstance(x, list) and x and isinstance(x[0], tuple) else x
